@@ -27,9 +27,12 @@ FUNCS = {
     'rmsd_par': 'exact', 'rmsd_ser': 'exact', 'rmsd_pre': 'exact', 'rmsd_ai': 'exact', 'rmsd_pre_view': 'exact', 'lprmsd': 'exact', 'center': 'exact', 'superpose': 'exact',
     'sasa_atom': 'exact', 'sasa_residue': 'exact', 'dssp': 'exact', 'dssp_full': 'exact', 'kabsch_sander': 'exact', 'wernet_nilsson': 'exact',
     'neighbors': 'exact', 'neighborlist': 'exact', 'contacts_ca': 'exact', 'contacts_closest': 'exact', 'drid': 'exact',
-    'rg': 'tol', 'com': 'tol', 'gyration': 'tol', 'inertia': 'tol', 'principal_moments': 'tol',
-    'rg_masses': 'tol', 'cog': 'tol', 'asphericity': 'tol', 'acylindricity': 'tol', 'shape_anisotropy': 'tol',
-    'nematic_order': 'tol', 'directors': 'tol', 'density': 'tol', 'dipole_moments': 'tol',
+    # numpy reductions over the atoms of each frame: measured bit-identical for a frame alone, in company and permuted on the
+    # unchanged tree (DESIGN.md section 9), so they are held to the same standard as the compiled kernels
+    'rg': 'exact', 'com': 'exact', 'gyration': 'exact', 'inertia': 'exact', 'principal_moments': 'exact',
+    'rg_masses': 'exact', 'cog': 'exact', 'asphericity': 'exact', 'acylindricity': 'exact', 'shape_anisotropy': 'exact',
+    'nematic_order': 'exact', 'directors': 'exact', 'density': 'exact', 'dipole_moments': 'exact',
+    'lprmsd_groups': 'exact', 'lprmsd_ai': 'exact',
     'angles_pbc': 'exact', 'dihedrals_pbc': 'exact', 'displacements_pbc': 'exact', 'distances_pbc_np': 'exact',
     'contacts_closest_heavy': 'exact', 'contacts_sidechain': 'exact', 'closest_contact': 'exact', 'omega': 'exact',
     'rmsf': 'threads_only',
@@ -241,6 +244,13 @@ def evaluate(md, name, w, idx, fseed):
         out = md.rmsd(t, ref, 0, atom_indices=np.arange(0, n, 2), parallel=True)
     elif name == 'lprmsd':
         out = md.lprmsd(t, ref, 0, parallel=True)
+    elif name == 'lprmsd_groups':
+        # a few interchangeable atoms only (everything else keeps its label)
+        g = [np.arange(0, min(3, n))] + ([np.arange(5, min(9, n))] if n > 6 else [])
+        out = md.lprmsd(t, ref, 0, permute_groups=g, parallel=True)
+    elif name == 'lprmsd_ai':
+        sel = np.arange(0, n, 2)
+        out = md.lprmsd(t, ref, 0, atom_indices=sel, permute_groups=[np.arange(min(4, len(sel)))], parallel=bool(fseed % 2))
     elif name == 'center':
         t.center_coordinates()
         out = t.xyz
@@ -330,6 +340,29 @@ def evaluate(md, name, w, idx, fseed):
     return list(out)
 
 
+PBC_TUPLES = {'angles_pbc': (5, 3), 'dihedrals_pbc': (5, 4), 'displacements_pbc': (6, 2)}
+
+
+def _mic_tie(w, f, frame, fseed):
+    """an orthorhombic frame of a trajectory that also has triclinic frames, in which two atoms used by the function are exactly
+    half a box length apart along an axis: two periodic images are equally near and the orthorhombic and the general kernel
+    (chosen per trajectory, not per frame) settle the tie differently -- the known finding recorded for this situation"""
+    if w['L'] is None or frame >= len(w['xyz']):
+        return False
+    A = np.asarray(w['A'])
+    if not np.all(A[frame] == 90.0) or np.all(A == 90.0):
+        return False
+    k, width = PBC_TUPLES[f]
+    x = w['xyz'][frame].astype(np.float64)
+    L = np.asarray(w['L'][frame], dtype=np.float64)
+    for tup in _pairs(x.shape[0], fseed, k, width):
+        for a, b in zip(tup[:-1], tup[1:]):
+            fr = np.abs((x[b] - x[a]) / L)
+            if np.any(np.abs(fr - np.floor(fr) - 0.5) < 2e-6):
+                return True
+    return False
+
+
 def canon(x):
     """hashable, NaN-safe canonical form of one frame's result"""
     if isinstance(x, (list, tuple)):
@@ -415,6 +448,8 @@ def execute(check, case, workdir):
         return alone_cache[(f, i)]
 
     def viol(f, clause, kind, detail, stepno):
+        if kind.startswith('value') and f in PBC_TUPLES and 'frame' in detail and _mic_tie(w, f, int(detail['frame']), case['seed'] % 100000 + 17):
+            kind += ',mic_tie'
         res.violate('%s|%s|%s|%s' % (check, f, clause, kind), stepno, dict(detail, function=f, n_frames=n, n_atoms=int(w['xyz'].shape[1])))
 
     if not sim:
